@@ -69,5 +69,5 @@ def _show(v):
         return [_show(x) for x in v[:30]]
     d = getattr(v, "__dict__", None)
     if d is not None:
-        return {"class": type(v).__name__, **{k: _show(x) for k, x in d.items() if k in ("start", "stop", "step", "values", "op", "value")}}
+        return {"class": type(v).__name__, **{k: _show(x) for k, x in d.items() if k in ("start", "stop", "step", "values", "op", "value", "_scenario", "source_entity_id", "sink_entity_id")}}
     return repr(v)[:80]
